@@ -242,4 +242,10 @@ theorem cnt_ge_two {s : State} {a : Act} {t u : Nat} (ht : t < NT) (hu : u < NT)
     (s.todo t).count a + (s.todo u).count a ≤ cnt s a :=
   sumTo_ge_two (f := fun v => (s.todo v).count a) ht hu hne
 
+/-- no operation, callback or cleanup is in progress -/
+def Quiet (s : State) : Prop := ∀ t, t < NT → s.todo t = []
+
+theorem not_inTodos_of_quiet {s : State} (hq : Quiet s) (a : Act) : ¬ InTodos s a := by
+  rintro ⟨t, ht, hm⟩; rw [hq t ht] at hm; cases hm
+
 end MoThreads.Composite
